@@ -31,6 +31,21 @@ BOUNDED: tables of at most 2 entries (0, 1, 2; one or two groups); at most one p
  directory names are fixed strings without glob meta characters; group/name/type strings have fixed lengths (2-3
  symbolic printable ASCII characters; strings are atoms for D1, so the length does not take part in any proof step).
 
+WHERE EACH CLAUSE OF THE DESIGN SECTION IS DECIDED
+ O1 field identity of encoder/decoder ........ codec.log, codec.param, codec.plain_dict; lifted over whole tables through
+    D1 in history.store_load.* (store -> [crash | delete] -> [restart] -> load -> repair -> load), history.reserved_name
+ O2 fetch opens only <dir>/<%08X of the announced checksum>.json, returns the table stored under exactly that checksum
+    or None, never raises ......................... fetch.select.<layout> (6 layouts of ro/rw directories, file A in ro,
+    file B in rw, all three checksums symbolic), history.other_checksum (files written by insert itself);
+    damaged / missing / cut-at-any-byte / foreign-class / vanished files are misses ... fetch.damaged, history.store_load.*;
+    files of other library versions (entries lacking a field) are misses, no field is defaulted ... fetch.other_version.*;
+    the fetcher asks the cache with the checksum decoded from the info reply, replaces its table only by a non-empty answer,
+    otherwise downloads, and stores under the announced checksum ... fetcher.info_reply.v1/v2, fetcher.download_store.v1/v2
+ O3 only <rw>/<%08X>.json is opened for writing, nothing when rw is unset, the constructor creates at most rw, the ro
+    directory is never written, insert never raises (also when rw has disappeared) ... insert.writes.<layout>
+ quantifier "collisions between log and parameter tables" ... collision.log_then_param / collision.param_then_log: these
+    FAIL on the pinned tree (genuine finding, see the comment above PENDING_FINDING) and run in the thorough tier only.
+
 NOT COVERED (and why):
  * concurrent use of one TocCache by two threads (needs interleavings; the library fetches log and param
    tables one after the other on the same thread);
@@ -63,6 +78,7 @@ P_RO = 'the read-only cache directory is never written; only <rw_cache>/<%08X of
 # flat(table): the entries of a two-level table in iteration order, one tuple per entry
 FLAT = ('lambda t: tuple((g, n, typename(e), e.ident, e.group, e.name, e.ctype, e.pytype, e.access, getattr(e, "extended", None)) '
         'for g, grp in t.items() for n, e in grp.items())')
+RO_UNCHANGED = 'n_ro2 == n_ro and (ro is None or all(not p.startswith(ro + "/") for p in writes()))'
 # paths opened for writing / creating
 WRITES = ('lambda: tuple(e[1][0] for e in sent("open") if (e[1][1] if len(e[1]) > 1 else e[2].get("mode", "r")) != "r")')
 
@@ -102,7 +118,6 @@ class World:
     def __init__(self, c):
         self.c = c
         self.sym = c.backend == 'sym'
-        self.last_written = None
         if self.sym:
             self._sym_init()
         else:
@@ -243,7 +258,6 @@ class World:
                 gf = _GFile(path, d)
                 self.files.append(gf)
             gf.chunks, gf.state = [], 'ok'          # 'w' truncates
-            self.last_written = gf
 
             def write(I_, a_, k_):
                 if not isinstance(a_[0], _jtext_class()):
@@ -359,21 +373,26 @@ class World:
         return p
 
     def file_written_for(self, dirpath, crc):
-        """handle of the file the library wrote last (native: by its specified name)"""
+        """handle of the file <dirpath>/<%08X of crc>.json (None if there is none)"""
         if self.sym:
-            return self.last_written
-        return dirpath + '/' + self.hex8_name(crc)
+            from pyvc.ops import seq_concat
+            return self._lookup(seq_concat(self.I, dirpath + '/', self.hex8_name(crc))) if dirpath in self.dirs else None
+        import os
+        p = dirpath + '/' + self.hex8_name(crc)
+        return p if os.path.isfile(p) else None
 
     def cut_file(self, fh, cut):
         """the process died while writing: only a strict prefix of the text (length chosen by `cut`) reached the disk"""
+        if fh is None:
+            return                          # nothing was written, nothing to cut
         if self.sym:
-            if fh is None:
-                self._oos('no file to cut')
-            fh.state = 'cut'
+            if fh.chunks:
+                fh.state = 'cut'
             return
         import json
         text = open(fh).read()
-        assert text, 'file to cut is empty'
+        if not text:
+            return
         for i in range(len(text)):          # D2, validated on every prefix of this text
             try:
                 json.loads(text[:i])
@@ -392,6 +411,8 @@ class World:
             f.write('this is not { json')
 
     def remove_file(self, fh):
+        if fh is None:
+            return
         if self.sym:
             self.files.remove(fh)
             return
@@ -400,25 +421,25 @@ class World:
 
     def remove_dir(self, dirpath):
         if self.sym:
-            self.dirs.remove(dirpath)
+            self.dirs = [d for d in self.dirs if d != dirpath and not d.startswith(dirpath + '/')]
             self.files = [f for f in self.files if f.dirname != dirpath]
             return
         import shutil
-        shutil.rmtree(dirpath)
+        shutil.rmtree(dirpath, True)
 
     def listing(self, dirpath):
-        """content of a directory: comparable value (names and bytes natively; file identities, texts and states in the
-        ghost file system); None if the directory does not exist"""
+        """the entries of a directory as a comparable value (names natively, file identities in the ghost file system;
+        None if the directory does not exist).  File CONTENTS change only through open(.., 'w'), which the trace shows."""
         if dirpath is None:
             return ()
         if self.sym:
             if dirpath not in self.dirs:
                 return None
-            return tuple((id(f), tuple(id(t) for t in f.chunks), f.state) for f in self.files if f.dirname == dirpath)
+            return tuple(id(f) for f in self.files if f.dirname == dirpath) + tuple(d for d in self.dirs if d.startswith(dirpath + '/'))
         import os
         if not os.path.isdir(dirpath):
             return None
-        return tuple((n, open(os.path.join(dirpath, n), 'rb').read()) for n in sorted(os.listdir(dirpath)))
+        return tuple(sorted(os.listdir(dirpath)))
 
     def calls_so_far(self):
         """the trace up to now (c.new does not publish it)"""
@@ -591,7 +612,7 @@ def _select(layout):
                  'all(any(e[1][0] == d + "/%08X.json" % crc for d in given) for e in sent("open"))')
         c.ensure('fetch-writes-nothing', 'writes() == () and len(calls("os.makedirs")) == 0')
         c.let('n_ro2', w.listing(ro))
-        c.ensure('ro-directory-unchanged', 'n_ro2 == n_ro')
+        c.ensure('ro-directory-unchanged', RO_UNCHANGED)
         w.close()
     return k
 
@@ -722,7 +743,7 @@ def _writes(layout):
                  'writes() == ((rw + "/%08X.json" % crc,) if rw is not None else ())')
         c.ensure('no-other-directory-made', 'all(e[1] == (rw,) for e in sent("os.makedirs"))')
         c.let('n_ro2', w.listing(ro))
-        c.ensure('ro-directory-unchanged', 'n_ro2 == n_ro')
+        c.ensure('ro-directory-unchanged', RO_UNCHANGED)
         w.close()
     return k
 
@@ -792,7 +813,7 @@ def _history(kind, n):
             if c.get('result') is not None:
                 c.ensure('repaired-identical-to-stored', 'flat(result) == stored')
         c.let('n_ro2', w.listing(c.get('ro')))
-        c.ensure('ro-directory-unchanged', 'n_ro2 == n_ro')
+        c.ensure('ro-directory-unchanged', RO_UNCHANGED)
         w.close()
     return k
 
@@ -973,7 +994,7 @@ _download(False)
 #    "obligation": "table-of-the-other-kind-is-not-used", "what": "..."}
 # they are run by `./vcheck C11 thorough` only (there they report the VIOLATION with its replay); delete
 # PENDING_FINDING from the decorator to run them in the quick tier as well.  The ensure stays class P.
-PENDING_FINDING = {'thorough_only': True}
+PENDING_FINDING = {}      # recorded in /verif/known_findings.json; runs in both tiers
 
 
 def _collision(first, second):
